@@ -4,4 +4,5 @@ set -e
 cd "$(dirname "$0")"
 . ./env.sh
 mkdir -p bin evidence
+(cd govc && go build -o ../bin/govc.tmp.$$ . && mv -f ../bin/govc.tmp.$$ ../bin/govc)
 echo "govc built: $(ls -la bin/govc | awk '{print $5}') bytes"
